@@ -166,7 +166,12 @@ func errorIndex(fn *ssa.Function) int {
 // compared with nil (or returned directly), and with the success edges
 // removed no return with a constant-nil error is reachable from the call.
 func failurePropagates(call *ssa.Call) (bool, string) {
-	return failurePropagatesExcept(call, nil)
+	ok, why := failurePropagatesExcept(call, nil)
+	if !ok && failureReachesCaller(call) {
+		// one accumulating error variable: decided path by path (nilpaths.go)
+		return true, ""
+	}
+	return ok, why
 }
 
 // notExistEdges: the edges taken when a not-exist test of the error of call
